@@ -87,6 +87,14 @@ def tables_stream(ctx, case, shape, fgg, info, a, enc, posneg, treqs, tmeta):
         return
     treqs.append(f'C04.reconstruct {gen.enc_shape(shape)} {xs} {lhs} {rhs} {enc_list(a)}')
     tmeta.append((case, enc, posneg))
+    # the table-FILLING phase: the model `Vt.viterbiTables` (F_viterbi + the driver loop) must produce the implementation's maxima and
+    # left-hand-side pointers exactly, and every right-hand-side pointer of the implementation must attain the maximum of its rule
+    key = gen.enc_shape(shape)
+    seen = ctx.extra.setdefault('_tables_seen', set())
+    if key not in seen and not any(n_ == 0 for n_ in shape['nls']):
+        seen.add(key)
+        ctx.extra.setdefault('_tables_reqs', []).append(f'C04.tables {key} {lhs} {rhs} 1000')
+        ctx.extra.setdefault('_tables_meta', []).append((dict(shape=shape, stream='table-filling'), xs, posneg))
 
 
 def run(ctx):
@@ -184,6 +192,26 @@ def run(ctx):
         if fixed != 'T':
             ctx.fail('viterbi: the tabulated maxima are not a fixed point of the max-plus equations', case, None, None,
                      tags=['maximum-not-fixed'] + (['posinf-meets-neginf'] if posneg else []))
+    ctx.extra.pop('_tables_seen', None)
+    for (case, xs, posneg), rep in zip(ctx.extra.pop('_tables_meta', []), ctx.driver.ask_many(ctx.extra.pop('_tables_reqs', []))):
+        if isinstance(rep, Exception): raise rep
+        toks = rep.split()
+        conv, lhs_eq, rhs_ok = toks[-3], toks[-2], toks[-1]
+        mval = ' '.join(toks[:-3])
+        ctx.evaluations += 1
+        ctx.count('table-filling.' + ('converged' if conv == 'T' else 'not-converged'))
+        if posneg:
+            continue          # D35: +inf meets -inf (recorded finding, seen through the other streams)
+        if conv != 'T':
+            ctx.disagree('Vt.viterbiTables: the model\'s fixed-point loop does not converge on a grammar whose Kleene iteration is stable', case, 'T', conv)
+            continue
+        if mval.split() != xs.split():
+            ctx.disagree('Vt.viterbiTables: maxima (model of F_viterbi + driver loop) vs the implementation\'s table `maximum`', case, xs, mval)
+        if lhs_eq != 'T':
+            ctx.disagree('Vt.viterbiTables: left-hand-side pointers (first rule that is strictly better) vs the implementation\'s lhs_pointer', case, 'T', lhs_eq)
+        if rhs_ok != 'T':
+            ctx.fail('viterbi: a right-hand-side pointer of the tables does not attain the maximum of its rule (wrong length, a value outside its '
+                     'domain, or a non-maximal assignment)', case, None, None, tags=['rhs-pointer-not-argmax'])
     for (case, b, w, total, root_rep, posneg), rep in zip(meta, ctx.driver.ask_many(reqs)):
         if isinstance(rep, Exception): raise rep
         if rep == 'none':
